@@ -11,6 +11,9 @@ THEOREMS = [
     "cursor_correct",
     "install_refines",
     "install_empty",
+    "strictIncr_iff",
+    "install_rejects_iff",
+    "install_checked_refines",
     "nth_eq_scan",
     "by_var_eq_scan",
     "nav_round_trip",
